@@ -244,10 +244,16 @@ func replayC01(c *h.Ctx, cs h.Case) {
 func runC01(c *h.Ctx) {
 	eg := NewExecGen(c.Rand("c01"))
 	eg.G.C.Datetime = true
-	n := c.PerShard(c.N(400000, 8000000))
+	n := c.PerShard(c.N(4000000, 40000000))
 	for i := 0; i < n; i++ {
 		checkC01(c, eg.Next())
 	}
+	// maintainer-written paths harvested from the library's tests and README x generated documents
+	nh := c.PerShard(c.N(200000, 2000000))
+	for i := 0; i < nh; i++ {
+		checkC01(c, eg.harvestCase(i*c.NShards+c.Shard))
+	}
+	c.Count("harvested.paths", int64(len(harvestedPaths())))
 	c.Count("gen.rejected-by-parser", int64(eg.Bad))
 }
 
